@@ -52,6 +52,18 @@ Section Property.
     negb (nested_static k) || (state_eq && (negb (is_nonview m) || negb (outcome_eqb cls Ok))).
 End Property.
 
+(** "gas charged = gas consumed": [cost] is the gas the same call (same method, arguments, state,
+    call kind, value) really consumes, measured by giving it ample gas.  A successful call is charged
+    exactly that, so it cannot succeed with less forwarded. *)
+Definition P_gas (cls : outcome) (gas left : Z) (cost : option Z) : Prop :=
+  forall c, cost = Some c -> cls = Ok -> gas - left = c /\ c <= gas.
+
+Definition Pb_gas (cls : outcome) (gas left : Z) (cost : option Z) : bool :=
+  match cost with
+  | Some c => negb (outcome_eqb cls Ok) || ((gas - left =? c) && (c <=? gas))
+  | None => true
+  end.
+
 Lemma outcome_eqb_true : forall a b, outcome_eqb a b = true <-> a = b.
 Proof. destruct a, b; simpl; split; intro H; try reflexivity; try discriminate. Qed.
 
@@ -78,6 +90,12 @@ Proof.
   intros k m cls se H E. unfold Pb_nested in H. rewrite E in H. simpl in H.
   apply andb_prop in H. destruct H as [A B]. split; [exact A|].
   intros E2 E3. rewrite E2 in B. subst cls. simpl in B. discriminate.
+Qed.
+
+Lemma Pb_gas_sound : forall cls gas left cost, Pb_gas cls gas left cost = true -> P_gas cls gas left cost.
+Proof.
+  intros cls gas left cost H c E O. subst cost cls. simpl in H.
+  apply andb_prop in H as [A B]. apply Z.eqb_eq in A. apply Z.leb_le in B. split; assumption.
 Qed.
 
 (* ------------------------------------------------------------------ conditions on the generated facts *)
